@@ -406,6 +406,9 @@ func GenParallel(t *rapid.T, name string, o GenOpts) *rt.Spec {
 		if sl.Sp == "top" {
 			sl.Ctx = true
 		}
+		if !sl.Boxed && prob(t, "pkgcoll", 0.25) {
+			sl.PkgVar, s.PkgState = true, true
+		}
 		unit++
 		coll++
 		if prob(t, "end", o.PEnd) {
